@@ -36,7 +36,7 @@ class OpsMixin:
         if isinstance(v, VInt):
             return v.t != 0
         if isinstance(v, VReal):
-            return v.t != 0 if v.unit is None else z3.BoolVal(True)
+            return v.t != 0 if v.unit != "datetime" else z3.BoolVal(True)
         if isinstance(v, VStr):
             return z3.Length(v.t) > 0
         if isinstance(v, VNone):
